@@ -73,11 +73,11 @@ func lockOrder(c *Ctx, only ...string) {
 		return out
 	}
 	type edge struct {
-		from, to     string
-		fromM, toM   byte
-		witness      []string
-		pos, fnKey   string
-		viaCallback  bool
+		from, to    string
+		fromM, toM  byte
+		witness     []string
+		pos, fnKey  string
+		viaCallback bool
 	}
 	var edges []edge
 	nSites := 0
